@@ -397,3 +397,105 @@ theorem digitsPhase_simple (e : Env) (hs : Simple e.c) (isNeg : Bool) (b : Bytes
         intro v c hvc
         simp only [Bytes.bufferLength] at hvc
         have := pdc_ok _ _ _ _ _ _ _ _ _ _ _ _ (by rw [hlen]; exact hvc); omega)
+
+/-! ## sign, emptiness, assembly -/
+
+/-- the sign byte the parser consumes: `+`, or `-` for a signed type -/
+def hasSign (t : IntTy) (s : List Nat) : Bool := s.head? == some 43 || (s.head? == some 45 && t.signed)
+
+/-- number of sign bytes consumed -/
+def signLen (t : IntTy) (s : List Nat) : Nat := if hasSign t s then 1 else 0
+
+/-- the two sign flags of the format (`no_positive_mantissa_sign`, `required_mantissa_sign`) in front of a result -/
+def signGate (e : Env) (s : List Nat) (r : Res) : Res :=
+  if s.head? = some 43 ∧ e.c.fmt.noPositiveMantissaSign = true then err "InvalidPositiveSign" 0
+  else if e.c.fmt.requiredMantissaSign = true ∧ hasSign e.t s = false then err "MissingSign" 0
+  else r
+
+theorem parseSign_simple (e : Env) (hs : Simple e.c) (s : List Nat) :
+    parseSign e (Bytes.new s) =
+      if s.head? = some 43 ∧ e.c.fmt.noPositiveMantissaSign = true then .error (.err "InvalidPositiveSign" 0)
+      else if e.c.fmt.requiredMantissaSign = true ∧ hasSign e.t s = false then .error (.err "MissingSign" 0)
+      else .ok (decide (s.head? = some 45 ∧ e.t.signed = true), { slc := s, index := signLen e.t s }) := by
+  have hnp : e.c.noPositiveMantissaSign = e.c.fmt.noPositiveMantissaSign := by
+    simp [Cfg.noPositiveMantissaSign, Cfg.flag, hs.hf]
+  have hrs : e.c.requiredMantissaSign = e.c.fmt.requiredMantissaSign := by
+    simp [Cfg.requiredMantissaSign, Cfg.flag, hs.hf]
+  cases s with
+  | nil =>
+    simp [parseSign, Bytes.new, Bytes.first, hrs, hasSign, signLen, Bytes.cursor]
+  | cons x xs =>
+    by_cases h43 : x = 43
+    · subst h43
+      simp only [parseSign, Bytes.new, Bytes.first, hnp, hrs, hs.bstep, Bytes.cursor, hasSign, signLen,
+        List.getElem?_cons_zero, List.head?_cons, List.length_cons]
+      cases e.c.fmt.noPositiveMantissaSign <;> cases e.c.fmt.requiredMantissaSign <;> simp
+    · by_cases h45 : x = 45
+      · subst h45
+        simp only [parseSign, Bytes.new, Bytes.first, hnp, hrs, hs.bstep, Bytes.cursor, hasSign, signLen,
+          List.getElem?_cons_zero, List.head?_cons, List.length_cons]
+        by_cases hsg : e.t.signed = true <;> cases e.c.fmt.requiredMantissaSign <;> simp [hsg]
+      · have hx : ∀ (α : Type) (a b c : α), (match (some x : Option Nat) with | some 43 => a | some 45 => b | _ => c) = c := by
+          intro α a b c; split <;> simp_all
+        simp only [parseSign, Bytes.new, Bytes.first, List.getElem?_cons_zero, hx, hrs, Bytes.cursor, hasSign, signLen,
+          List.head?_cons]
+        cases e.c.fmt.requiredMantissaSign <;> simp [h43, h45]
+
+theorem plainSign_eq (t : IntTy) (s : List Nat) :
+    ParseInt.parseSign t.signed s 0 =
+      .ok (decide (s.head? = some 45 ∧ t.signed = true), s.drop (signLen t s), signLen t s) := by
+  cases s with
+  | nil => simp [ParseInt.parseSign, hasSign, signLen]
+  | cons x xs =>
+    by_cases h43 : x = 43
+    · subst h43; simp [ParseInt.parseSign, hasSign, signLen]
+    · by_cases h45 : x = 45
+      · subst h45
+        by_cases hsg : t.signed = true <;> simp [ParseInt.parseSign, hasSign, signLen, hsg]
+      · have : ParseInt.parseSign t.signed (x :: xs) 0 = .ok (false, x :: xs, 0) := by
+          unfold ParseInt.parseSign; split <;> simp_all
+        simp [this, hasSign, signLen, h43, h45]
+
+theorem prefixZeros_none (e : Env) (hs : Simple e.c) (hp : e.c.fmt.basePrefix = 0)
+    (hz : e.c.fmt.noIntegerLeadingZeros = false) (b : Bytes) (start : Nat) : prefixZeros e b start = .ok (b, start) := by
+  simp [prefixZeros, Cfg.basePrefix, hs.hf, hp, Cfg.flag, hz]
+
+theorem toInt_zero (t : IntTy) : ParseInt.toInt t 0 = 0 := by
+  have : 0 < 2 ^ (t.bits - 1) := Nat.pow_pos (by omega)
+  simp only [ParseInt.toInt]
+  split
+  · omega
+  · rfl
+
+/-- **characterisation on simple formats** (release build; no separator, prefix, suffix, leading-zero flag): the
+format-feature model is the format-free model behind the two sign flags, except that an input without any digit
+byte is accepted as zero when the format requires no digits. -/
+theorem parseIntFormat_simple_eq (e : Env) (hs : Simple e.c) (hp : e.c.fmt.basePrefix = 0)
+    (hz : e.c.fmt.noIntegerLeadingZeros = false) (s : List Nat) :
+    parseIntFormat e s =
+      signGate e s
+        (if e.requiredDigits = false ∧ signLen e.t s = s.length then .ok (0, s.length)
+         else ofM (ParseInt.parseInt e.c.feats e.t e.radix e.partial_ e.noMulti s)) := by
+  have hsl : signLen e.t s ≤ s.length := by
+    unfold signLen hasSign; cases s <;> simp; split <;> omega
+  simp only [parseIntFormat, algorithm, parseSign_simple e hs, signGate, LexVerif.Proof.ParseInt.parseInt_unfold,
+    plainSign_eq]
+  by_cases h1 : s.head? = some 43 ∧ e.c.fmt.noPositiveMantissaSign = true
+  · simp [h1, err]
+  · simp only [h1, if_false]
+    by_cases h2 : e.c.fmt.requiredMantissaSign = true ∧ hasSign e.t s = false
+    · simp [h2, err]
+    · simp only [h2, if_false, Bytes.isBufferEmpty, Bytes.cursor, ge_iff_le]
+      by_cases hemp : s.length ≤ signLen e.t s
+      · have heq : signLen e.t s = s.length := by omega
+        simp only [hemp, decide_true, if_true, heq]
+        cases hr : e.requiredDigits with
+        | true => simp [ofM]
+        | false => simp [intoOk, hr, toInt_zero]
+      · have hne : signLen e.t s ≠ s.length := by omega
+        simp only [hemp, decide_false, Bool.false_eq_true, if_false, hne, and_false]
+        rw [prefixZeros_none e hs hp hz]
+        have := digitsPhase_simple e hs (decide (s.head? = some 45 ∧ e.t.signed = true))
+          ⟨s, signLen e.t s, 0, 0, 0⟩ (signLen e.t s) (by simp only; omega)
+        simp only [Bytes.asSlice] at this
+        exact this
